@@ -1553,6 +1553,16 @@ def flow_family(ctx, asker, rep=None):
 
 
 # =====================================================================================================================
+# W-S10a: FIX histories on message OBJECTS (one object sent several times with in-place changes in between, messages obtained from the
+# reader, headers numbered by the application) — everything lives in harness/c10_obj.py; model Model/SeqObj.lean, Props/C10Obj.lean
+# =====================================================================================================================
+def obj_family(ctx, asker, rep=None):
+    """generated object histories + the histories of Witness/C10Obj.lean (rep None) or the replay of one (`rep['kind'] == 'fix-obj-history'`)"""
+    import c10_obj
+    return c10_obj.run(ctx, asker) if rep is None else c10_obj.replay(ctx, asker, rep)
+
+
+# =====================================================================================================================
 # run / replay
 # =====================================================================================================================
 class Asker:
@@ -1631,6 +1641,9 @@ def run_case(ctx, case, asker):
                 elif rec['proto'] == 'soup' and rec['kind'] == 'auto':
                     ctx.count('multi-soup-automatic-write')
         return out
+    if case['kind'] == 'fix-obj-history':       # W-S10a (corpus files of that kind)
+        import c10_obj
+        return c10_obj.run_one(ctx, asker, case['history'])
     raise ValueError(case['kind'])
 
 
@@ -1679,6 +1692,7 @@ def run(ctx):
     if out is not None:
         ctx.count('multi-witness-tags:' + str([[tag34(f) for f in ws] for ws in out['writes']]))
     flow_family(ctx, asker)      # W-S10b: FIX / soup histories on a transport with write flow control
+    obj_family(ctx, asker)       # W-S10a: FIX histories on message objects (re-sent, changed in place, decoded, numbered by hand)
     # ---- generated histories
     for i in range(n_multi):
         h = gen_multi_history(rng, thorough=not quick)
@@ -1709,6 +1723,8 @@ def replay(ctx, path):
     probe_variant(ctx)
     if rep.get('kind') == 'flow-history':      # W-S10b
         return flow_family(ctx, asker, rep)
+    if rep.get('kind') == 'fix-obj-history':   # W-S10a
+        return obj_family(ctx, asker, rep)
     out = run_case(ctx, rep, asker)
     ctx.case('replay-marker')
     if out is None:
